@@ -1,6 +1,6 @@
 From Coq Require Import ZArith QArith List Bool Lia.
 From PV Require Import Lib.Py Proofs.PyTac Model.Aggregates.
-From PV Require Gen.excelutil Gen.excellib Gen.stats Gen.excelformula.
+From PV Require Gen.excelutil Gen.aggregates Gen.stats Gen.excelformula.
 Import ListNotations.
 Open Scope Z_scope.
 Lemma placeholder : 1 = 1. Proof. reflexivity. Qed.
